@@ -8,6 +8,7 @@ import (
 	"encoding/json"
 	"fmt"
 	"net"
+	"sort"
 	"strings"
 	"time"
 
@@ -15,6 +16,7 @@ import (
 	"github.com/coredhcp/coredhcp/plugins/serverid"
 	"github.com/insomniacslk/dhcp/dhcpv6"
 
+	"verifmc/checks/optplug"
 	"verifmc/ev"
 	"verifmc/pkt"
 	"verifmc/reg"
@@ -230,6 +232,7 @@ func run4(r *ev.Run, args []string) {
 		return
 	}
 	own := net.ParseIP(args[0]).To4()
+	defer chains4(r, h, args, own)
 	other := []byte{198, 51, 100, 7}
 	vals := map[string][]byte{"zero": {0, 0, 0, 0}, "own": own, "other": other}
 	for _, mt := range []byte{1, 3} {
@@ -248,6 +251,54 @@ func run4(r *ev.Run, args []string) {
 					}
 					c := Case{4, args, hex.EncodeToString(p.Bytes()), false}
 					eval4(r, h, c, own, si, o54, fmt.Sprintf("v4/type=%d/siaddr=%s/opt54=%s", mt, si, o54))
+				}
+			}
+		}
+	}
+}
+
+// chains4: server_id followed by every other built-in plugin, one at a time:
+// whatever the other plugin does, a reply that leaves must carry this server's identifier in
+// siaddr and option 54.
+func chains4(r *ev.Run, sid handler.Handler4, args []string, own []byte) {
+	v4, _ := optplug.ValidArgs(srv.Scratch())
+	names := make([]string, 0, len(v4))
+	for n := range v4 {
+		names = append(names, n)
+	}
+	sort.Strings(names)
+	battery := optplug.Battery4([]byte{66, 67})
+	for _, n := range names {
+		h, err := optplug.Plugins[n].Setup4(v4[n]...)
+		if err != nil {
+			panic(fmt.Sprintf("%s: %v", n, err))
+		}
+		// server_id first, as in every documented configuration: a plugin that ends the chain
+		// before server_id runs is a configuration choice, not a defect
+		for _, order := range []string{"after"} {
+			hs := []handler.Handler4{sid, h}
+			if order == "before" {
+				hs = []handler.Handler4{h, sid}
+			}
+			for _, d := range battery {
+				c := Case{4, args, hex.EncodeToString(d), false}
+				out := srv.Run4(net.Interface{}, hs, d, 1, nil)
+				class := fmt.Sprintf("v4/chain/%s-%s-server_id/replies=%d", n, order, len(out.Sent))
+				r.Eval(class)
+				if out.Panic != "" {
+					r.Violate("C14/panic", out.Panic, c)
+					continue
+				}
+				if len(out.Sent) != 1 {
+					continue
+				}
+				rep, err := pkt.ParseV4(out.Sent[0].Data)
+				if err != nil {
+					continue
+				}
+				d54, n54 := rep.Get(54)
+				if !bytes.Equal(rep.SI[:], own) || n54 != 1 || !bytes.Equal(d54, own) {
+					r.Violate("C14/v4/reply-server-id/chain-with-"+n, fmt.Sprintf("chain [server_id %s, %s %v] (%s %s server_id): reply siaddr=%v option54=%v (x%d), want %v in both", args[0], n, v4[n], n, order, net.IP(rep.SI[:]), net.IP(d54), n54, net.IP(own)), c)
 				}
 			}
 		}
